@@ -94,7 +94,7 @@ def _dask_rio_reproject(
 
     name: str = kwargs.pop("name", "reproject")
 
-    assert isinstance(s_gbox, GeoBox)
+    assert isinstance(s_gbox, (GeoBox, GCPGeoBox))
     gbt_src = GeoboxTiles(s_gbox, src.chunks[ydim : ydim + 2])
     gbt_dst = GeoboxTiles(d_gbox, chunks)
     d2s_idx = gbt_dst.grid_intersect(gbt_src)
